@@ -15,7 +15,10 @@ Local Open Scope list_scope.
 Definition C06_claims (isf : string -> bool) (sty : style) (ti tp : list tok) (st' : pstate) : Prop :=
      count_auto tp = List.length st'                                   (* the counts agree *)
   /\ bookkeeping sty [] tp st'                                         (* k-th placeholder <-> k-th value / its name maps to it; keys distinct *)
-  /\ subst isf sty st' tp = Some (map (by_value isf) ti)               (* substituting the values' literals gives the inline tokens, by value *)
+  /\ subst isf sty st' (unguard tp) = Some (map (by_value isf) (unguard ti))
+       (* substituting the values' literals gives the inline tokens, by value -- up to the parentheses the inline renderer
+          puts around an operand whose TEXT starts with a minus sign ("a"-(-1), -(-1), "a"-(-1*"b")): with a placeholder
+          in front of it the text does not ("a"-?), so they are absent there; [unguard] erases them on both sides *)
   /\ count_lit ti = count_auto tp + count_lit tp.                      (* every literal is EITHER collected OR inline *)
 
 Definition C06_full_statement : Prop :=
@@ -46,7 +49,7 @@ Theorem C06_refutation_witnesses :
   (* Decimal: collected as the STRING "1.50", inline a number *)
   (exists tp ti, render_stmt no_float (Some Named) false w_decimal [] = Ok (tp, [("param1", VStr "1.50")])
               /\ render_stmt no_float None false w_decimal [] = Ok (ti, [])
-              /\ subst no_float Named [("param1", VStr "1.50")] tp <> Some (map (by_value no_float) ti))
+              /\ subst no_float Named [("param1", VStr "1.50")] (unguard tp) <> Some (map (by_value no_float) (unguard ti)))
   (* NumericParameter next to an explicit Parameter(":1"): two placeholders spelled :1, one of them the collector's
      (the token view tells them apart, the text does not) *)
   /\ render_t no_float (Some Numeric) str_ctx w_collision [] =
@@ -77,7 +80,7 @@ Theorem C06_bookkeeping_holds :
   forall isf sty sqlite (s : stmt), stmt_ok any_lit sqlite s = true ->
     match render_stmt isf None sqlite s [], render_stmt isf (Some sty) sqlite s [] with
     | Ok (ti, _), Ok (tp, st') =>
-        count_auto tp = List.length st' /\ bookkeeping sty [] tp st' /\ aligned isf any_lit sty st' tp ti
+        count_auto tp = List.length st' /\ bookkeeping sty [] tp st' /\ aligned isf any_lit sty st' (unguard tp) (unguard ti)
         /\ count_lit ti = count_auto tp + count_lit tp
     | Err e, Err e' => e = e'
     | _, _ => False
@@ -151,7 +154,8 @@ Theorem C06_reused_collector :
 Proof.
   intros isf sty c t st F H tp st' E. pose proof (sim_term isf sty any_lit c t [] st H) as R. unfold relS in R.
   rewrite E in R. destruct (render_t isf None c t []) as [[ti s0]|e]; [|contradiction].
-  destruct R as [_ S]. eapply sim_bookkeeping; eassumption.
+  destruct R as [_ [S _]]. pose proof (sim_bookkeeping isf sty any_lit st st' _ _ S F) as B. unfold bookkeeping in *.
+  rewrite !autos_unguard, !count_auto_unguard in B. exact B.
 Qed.
 Print Assumptions C06_reused_collector.
 
@@ -170,6 +174,24 @@ Print Assumptions C06_inline_is_shared_renderer.
 Theorem C06_placeholder_samples : forallb sample_ok ph_samples = true.
 Proof. exact ph_samples_ok. Qed.
 Print Assumptions C06_placeholder_samples.
+
+(* the sign-protecting parentheses: "a"-(-1) inline, "a"-? with [-1] under a collector; -(-1) versus -? *)
+Example C06_sign_parentheses :
+  render_t no_float None str_ctx (TArith OSub (TField "a" None None) (TValI (-1) None) None) [] =
+    Ok ([KTxt """a"""; KTxt "-"; KGuard "("; KLit (LInt (-1)) "-1"; KGuard ")"], [])
+  /\ render_t no_float (Some Qmark) str_ctx (TArith OSub (TField "a" None None) (TValI (-1) None) None) [] =
+    Ok ([KTxt """a"""; KTxt "-"; KAuto 0 "?"], [("", VInt (-1))])
+  /\ render_t no_float None str_ctx (TNeg (TValI (-1) None)) [] = Ok ([KTxt "-"; KGuard "("; KLit (LInt (-1)) "-1"; KGuard ")"], [])
+  /\ render_t no_float (Some Qmark) str_ctx (TNeg (TValI (-1) None)) [] = Ok ([KTxt "-"; KAuto 0 "?"], [("", VInt (-1))]).
+Proof. repeat split; vm_compute; reflexivity. Qed.
+
+(* operands are collected left before right (the order is read off ArithmeticExpression.get_sql on every run) *)
+Example C06_operand_order :
+  arith_left_first = true
+  /\ render_t no_float (Some Qmark) str_ctx
+       (TArith OSub (TArith OAdd (TValI 1 None) (TField "a" None None) None) (TValI 2 None) None) [] =
+     Ok ([KAuto 0 "?"; KTxt "+"; KTxt """a"""; KTxt "-"; KAuto 1 "?"], [("", VInt 1); ("", VInt 2)]).
+Proof. split; vm_compute; reflexivity. Qed.
 
 (* ---- non-vacuity ---- *)
 Definition ex_stmt : stmt :=
